@@ -298,6 +298,9 @@ func (r *Recorder) Violation(check string, c interface{}, sig string, err error)
 
 // Flush writes the shard's counters for bin/vcheck to merge.
 func (r *Recorder) Flush(t *testing.T) {
+	if capturing {
+		return
+	}
 	r.mu.Lock()
 	defer r.mu.Unlock()
 	if envOut == "" {
@@ -327,6 +330,9 @@ func (r *Recorder) Flush(t *testing.T) {
 
 // shardRange splits [0,n) into envNShards contiguous slices.
 func shardRange(n uint64) (lo, hi uint64) {
+	if capturing {
+		return 0, 0
+	}
 	per := n / uint64(envNShards)
 	lo = per * uint64(envShard)
 	hi = lo + per
@@ -381,10 +387,41 @@ func guard(f func() error) (err error) {
 // rapidCheck runs a rapid property and keeps going semantics uniform.
 func rapidCheck(t *testing.T, prop func(*rapid.T)) {
 	t.Helper()
+	if capturing {
+		capturedProp = prop
+		return
+	}
 	if t.Failed() {
 		return // a deterministic part already reported a violation
 	}
 	rapid.Check(t, prop)
+}
+
+// capturing: a check function is being run only to obtain its generated property (see fuzzProperty);
+// enumerated / exhaustive parts are skipped and nothing is flushed.
+var (
+	capturing    bool
+	capturedProp func(*rapid.T)
+)
+
+// fuzzProperty drives the generated property of a check with go's native coverage-guided fuzzer
+// (rapid.MakeFuzz: the fuzzer's bytes become the generators' random stream), thorough tier only.
+func fuzzProperty(f *testing.F, check func(*testing.T)) {
+	capturing, capturedProp = true, nil
+	shard := envShard
+	envShard = -1 // no enumerated part belongs to this process
+	defer func() { envShard = shard }()
+	done := make(chan struct{})
+	go func() {
+		defer close(done)
+		check(&testing.T{})
+	}()
+	<-done
+	capturing = false
+	if capturedProp == nil {
+		f.Fatal("harness: the check did not reach its generated property")
+	}
+	f.Fuzz(rapid.MakeFuzz(capturedProp))
 }
 
 // knownSig reports whether a finding signature is listed as a known finding in
